@@ -287,7 +287,40 @@ def _environment_shared(F, rep, copier):
            "the Function arm does not put the parameters into `self.%s` before checking the body (or takes them out before): an "
            "inner function that returns a parameter of the enclosing one is generalised over that parameter's type" % seeded_from,
            fexpr["sp"])
+    # .. and so has the function whose body is being checked (it is not generalised yet: a local helper that calls it must
+    # not get a fresh copy of its still-unknown result type at every use) ..
     fdef = F.fn(TC + "definition")
+    order = []
+    for x in nodes(fn_body(fdef), "MethodCall"):
+        r = peel(x["recv"])
+        if r.get("k") == "Field" and r["name"] == seeded_from and x["m"] in ("extend", "push", "insert"):
+            order.append("enter")
+        elif callee(x) == TC + "expression":
+            order.append("body")
+    own = "enter" in order and "body" in order and order.index("enter") < order.index("body")
+    rep.ob("COPY", "environment|function-has-one-type-in-its-own-body", own,
+           "definition() puts the variable being defined into `self.%s` before its value is checked" % seeded_from if own else
+           "while the body of `f :: fn ..` is checked `f` is neither generalised nor in `self.%s`: a local helper `g :: fn y -> f(y) end` "
+           "is instantiated with a fresh copy of f's unknown result type at every use - `g(x - 1) + \"s\"` is accepted in a function "
+           "that returns int" % seeded_from, fdef["sp"])
+    # .. and `self` inside a blob literal's methods
+    arms_b = tc.arm_of(F, fexpr, "sylt_compiler::name_resolution::Expression", "Blob")
+    self_ok = False
+    for arm, alt in arms_b or []:
+        order = []
+        for x in nodes(arm["body"]):
+            if x.get("k") == "MethodCall":
+                r = peel(x["recv"])
+                if r.get("k") == "Field" and r["name"] == seeded_from and x["m"] in ("extend", "push", "insert") and \
+                        "self_var" in pp(x["args"][0] if x["args"] else {}):
+                    order.append("enter")
+                elif callee(x) == TC + "expression":
+                    order.append("field")
+        self_ok = "enter" in order and "field" in order and order.index("enter") < order.index("field")
+    rep.ob("COPY", "environment|self-has-one-type-in-the-methods", self_ok,
+           "the Blob arm puts `self` into `self.%s` before the field values are checked" % seeded_from if self_ok else
+           "`self` of a blob literal is not in `self.%s` while the methods are checked: a local helper `get :: fn -> self.x end` gets a "
+           "fresh copy of the field's type at every use - `get() + \"!\"` is accepted for a field declared int" % seeded_from, fexpr["sp"])
     enters = [x for x in nodes(fn_body(fdef), "MethodCall") if peel(x["recv"]).get("k") == "Field" and
               peel(x["recv"])["name"] == seeded_from and x["m"] in ("extend", "push", "insert")]
     rep.ob("COPY", "environment|definitions-enter", bool(enters),
@@ -541,6 +574,17 @@ def value_paths(F, rep):
                        "inside the loop over the branches `%s` is overwritten (`=`) with whether *this* branch lacks a value: only the "
                        "last branch decides, `y := case m do None -> n += 1 end Just x -> x end end` gives y the type int although the "
                        "None branch leaves nil" % tgt.get("name"), line_of(w))
+            # .. and what the other branches *return* is not the value of a branch that yields nothing: `value.or(ret)` hands the
+            # function's return type on as the value of `if c do ret 1 else do n = 2 end`
+            for c in nodes(arm["body"], "MethodCall"):
+                if c["m"] == "or" and c["args"] and "Option<sylt_common::TyID>" in (c.get("recv_ty") or ""):
+                    a_ = peel(c["args"][0])
+                    plain = a_.get("k") == "Path" and a_.get("res") == "Local"
+                    rep.ob("VALUE-PATH", "expression|%s|returns-are-not-the-value" % v, not plain,
+                           "the return type stands in for a missing value only under a test (that no branch can reach its end)" if not plain else
+                           "the %s arm answers `value.or(%s)`: when no branch yields a value the type of the `ret`s is taken as the value of "
+                           "the expression - a function ending in `if c do ret 1 else do n = 2 end` is accepted as returning int and "
+                           "returns nil on the else path" % (v.lower(), a_.get("name")), line_of(c))
     # (2) a function with a declared return type must not fall off its end
     for arm, alt in tc.arm_of(F, fexpr, E, "Function"):
         guards_fall_off = False
